@@ -175,7 +175,7 @@ def mc_module(name, job, maxev=1, candev=None):
     txt += "McCand == " + _rec({k: _set(str(x) for x in v) for k, v in CAND.items()}) + "\n"
     txt += "McCandEv == " + _rec({k: _set(str(x) for x in v) for k, v in ce.items()}) + "\n====\n"
     cfg = INT_CFG + " MaxEv = %d\n InfTail = TRUE\nINIT Init\nNEXT Next\n" % maxev
-    cfg += "INVARIANT IdealSound\nINVARIANT IdealPreLegal\nINVARIANT LastEvalDecides\n"
+    cfg += "INVARIANT IdealSound\nINVARIANT IdealPreLegal\nINVARIANT LastEvalDecides\nINVARIANT ImplConforms\n"
     return txt, cfg
 
 
@@ -1260,7 +1260,8 @@ def run(pid, tier, seed, replay=None):
             mod, cfg = mc_module("MC_" + name, job, maxev=1)
             sc.write("MC_%s.tla" % name, mod)
             tjobs.append((("mc", name), sc, "MC_" + name, cfg,
-                          dict(workers=2, dump=("states", sc.path("D_" + name)), timeout=2400, heap="4g")))
+                          dict(workers=2, dump=("states", sc.path("D_" + name)), timeout=2400, heap="4g",
+                               extra=("-continue",))))
         # any finite sequence of evaluations: two evaluations with the full candidate sets, no dump
         for name, job in jobs:
             if name not in (("Plain2", "TPL2", "Opt2") if thorough else ("Plain2", "TPL2")):
@@ -1274,13 +1275,22 @@ def run(pid, tier, seed, replay=None):
                 j2["bnds"] = job["bnds"][:3]
             mod, cfg = mc_module("EV2_" + name, j2, maxev=2, candev=CANDEV2 if thorough else CANDEV)
             sc.write("EV2_%s.tla" % name, mod)
-            tjobs.append((("ev2", name), sc, "EV2_" + name, cfg, dict(workers=2, timeout=2400, heap="4g")))
+            tjobs.append((("ev2", name), sc, "EV2_" + name, cfg,
+                          dict(workers=2, timeout=2400, heap="4g", extra=("-continue",))))
+        stale_transcription = []
         results = tlc.run_many(tjobs, parallel=7)
         print("TLC: %d jobs in %.1fs" % (len(tjobs), time.time() - t0))
         for (kind, name), r in sorted(results.items()):
             tlc.must_pass(r, "%s %s" % (kind, name))
             rep.add_tlc("Fit.%s[%s]" % (kind, name), r)
-            if r.error:
+            if r.error and r.error[1] == "ImplConforms":
+                # the code-shaped part is not admissible w.r.t. the documented part beyond the recorded
+                # deviation: a defect (then the replay on the real code below raises the VIOLATION) or a
+                # stale transcription (then the replay reports DRIFT)
+                stale_transcription.append(name)
+                rep.drift_msg("TLC: invariant ImplConforms of Fit.tla fails for %s: the transcription of fit.py is "
+                              "not admissible w.r.t. the documented semantics beyond the known deviation" % name)
+            elif r.error:
                 rep.violation("design:%s" % r.error[1], "the documented semantics of Fit.tla violates its own %s %s (%s)"
                               % (r.error[0], r.error[1], name), {"trace": tlc.error_trace(r)})
         # ---- read the dumps
@@ -1414,9 +1424,11 @@ def run(pid, tier, seed, replay=None):
     rep.extra["adversary_behaviours_skipped"] = adv_skipped
     rep.extra["scipy_runs"] = sc_n
     rep.extra["scipy_curve_evaluations"] = nfev
+    rep.extra["ImplConforms_fails_for"] = stale_transcription
     if disc_total:
-        rep.note("TLC: the transcription of fit.py deviates from the documented semantics in %d end states: %s"
-                 % (sum(disc_total.values()), disc_total))
+        rep.note("TLC: end states in which the transcription of fit.py is not an admissible outcome: %s "
+                 "(error:spurious on TPL jobs = KnownDeviation of Fit.tla, finding error:spurious:TPL:var-bounds)"
+                 % disc_total)
     r2s = [a[0] for a in aux if a[0] is not None and a[1]]
     perr = [a[2] for a in aux if a[2] is not None]
     if r2s:
